@@ -58,13 +58,25 @@ func randMesh(rng *rand.Rand) *model3d.Mesh {
 	}
 }
 
-// perturbed returns rays that differ from r by a relative 1e-7 in origin and direction.
+// perturbed returns rays that differ from r by a relative 1e-7 in origin and direction
+// (direction components that are exactly zero stay so).
 func perturbed(rng *rand.Rand, r *model3d.Ray, n int) []*model3d.Ray {
 	var res []*model3d.Ray
 	for i := 0; i < n; i++ {
+		d := r.Direction.Add(vlib.RandUnit3(rng).Scale(1e-7 * r.Direction.Norm()))
+		// exactly zero components (of either sign) are a property of the query, not noise: keep them
+		if r.Direction.X == 0 {
+			d.X = r.Direction.X
+		}
+		if r.Direction.Y == 0 {
+			d.Y = r.Direction.Y
+		}
+		if r.Direction.Z == 0 {
+			d.Z = r.Direction.Z
+		}
 		res = append(res, &model3d.Ray{
 			Origin:    r.Origin.Add(vlib.RandUnit3(rng).Scale(1e-7 * (1 + r.Origin.Norm()))),
-			Direction: r.Direction.Add(vlib.RandUnit3(rng).Scale(1e-7 * r.Direction.Norm())),
+			Direction: d,
 		})
 	}
 	return res
@@ -246,6 +258,21 @@ func objects2(r *vlib.Run) {
 			}
 			target := model3d.XYZ(mn.X+(mx.X-mn.X)*rng.Float64(), mn.Y+(mx.Y-mn.Y)*rng.Float64(), mn.Z+(mx.Z-mn.Z)*rng.Float64())
 			ray := &model3d.Ray{Origin: origin, Direction: target.Sub(origin).Scale(0.2 + 2*rng.Float64())}
+			if k%5 == 4 {
+				// axis-parallel ray through the target; the other components are zeros of either sign
+				// (what negating an axis vector produces)
+				var d [3]float64
+				for i := range d {
+					if rng.Intn(2) == 0 {
+						d[i] = math.Copysign(0, -1)
+					}
+				}
+				a := rng.Intn(3)
+				d[a] = (0.2 + 2*rng.Float64()) * float64(2*rng.Intn(2)-1)
+				dir := model3d.NewCoord3DArray(d)
+				ray = &model3d.Ray{Origin: target.Sub(dir.Normalize().Scale(size * (0.1 + rng.Float64()))), Direction: dir}
+				c.Count("objects.scene.casts_axis_parallel_signed_zero", 1)
+			}
 			nearest := func(ry *model3d.Ray) (float64, int) {
 				best, idx := math.Inf(1), -1
 				for i, p := range parts {
